@@ -47,6 +47,9 @@ FAULT_TABLE = [
     ('SLL', 'a', ['MissingInput']), ('SLL', 'a,b,c,d', ['MissingInput']),
     ('S_any', 'ab', ['InvalidInput']), ('S_pat', 'cat!', ['InvalidInput']),
     ('I', '{1,2}', ['InvalidInput']), ('I', '[1,2>', ['InvalidInput']), ('I', '[1]', ['ConfigError']), ('I', '[1,2,3]', ['MissingInput']),
+    ('I', '     ', ['ConfigError']), ('I', '\t\t\t\t\t\t', ['ConfigError']), ('I', 'x    ', ['ConfigError']), ('I', '  [1  ', ['ConfigError']),
+    ('I', ' \n \n \n', ['ConfigError']), ('LGG', ['a', 'b', 'c', 'd', 'e'], ['ConfigError']), ('LGG', ['a', 'b', 'c'], ['ConfigError']),
+    ('LGG', ['a', 'b', 'c', 'd', 'e', 'f'], ['ConfigError']),
     ('IB', '<1,2]', ['InvalidInput']), ('IB', '[1,2>', ['InvalidInput']), ('IB', '|1,2|', ['InvalidInput']), ('IB', '{1,2|', ['InvalidInput']),
     ('ML', 'v', ['InputTypeError']), ('ML', '[1,2]', ['InputTypeError']), ('ML', 'A', ['InputTypeError']), ('ML', 'A^2', ['InputTypeError']),
     ('MLV', 'x', ['InputTypeError']), ('MLV', 'A', ['InputTypeError']), ('MV', '3', ['InputTypeError']), ('MV', '[1,2,3]', ['InputTypeError']),
@@ -333,6 +336,8 @@ def run_table(ctx):
             return M.StringGrader(answers='cat', validation_pattern='[a-z]+')
         if kind == 'I':
             return M.IntervalGrader(answers='[1,2]')
+        if kind == 'LGG':
+            return M.ListGrader(answers=[['a', 'b'], ['c', 'd']], subgraders=M.ListGrader(subgraders=M.StringGrader()), grouping=[1, 1, 2, 2])
         if kind == 'FI':
             return M.FormulaGrader(answers='N', user_constants={'N': 9})
         if kind == 'FIR':
